@@ -177,6 +177,20 @@ def exprgrid():
             n += 1
 
 
+def spellgrid():
+    """Numbers in every spelling both assemblers read alike: decimal, 0x / 0X prefix, upper- and lower-case digits, leading zeros."""
+    n = 0
+    for v in (0x1f, 0x7f, 0x80, 0xab, 0x1000, 0xabcdef, 0x7fffffff, 0xfffffffe):
+        for sp in ('%d', '0x%x', '0X%x', '0x%X', '0X%X', '0x0%x', '0X000%X'):
+            t = sp % v
+            for fmt, mn, shape, lim in (('mov eax, %s', 'mov', 'spell:r32,i', 1 << 32), ('mov eax, DWORD PTR [ebx+%s]', 'mov', 'spell:r32,m32', 1 << 31), ('ret %s', 'ret', 'spell:i16', 1 << 16),
+                                        ('push %s', 'push', 'spell:i', 1 << 31), ('add cl, %s', 'add', 'spell:r8,i', 1 << 8), ('mov BYTE PTR %s[esi], 1', 'mov', 'spell:m8,i', 1 << 31),
+                                        ('cmp WORD PTR [edx], %s', 'cmp', 'spell:m16,i', 1 << 16)):
+                if v < lim:
+                    yield n, fmt % t, mn, shape, None
+                    n += 1
+
+
 def symgrid():
     """Symbol-relative memory operands in every spelling compilers print: N+sym[regs], -N+sym[regs], sym[regs+N], sym[regs-N],
     N[regs] and N[regs+M] (outer and inner displacement), with one and two registers."""
@@ -226,5 +240,8 @@ def lines(tier, seed, part, nparts):
         if n % nparts == part:
             yield line, mn, shape, v
     for n, line, mn, shape, v in exprgrid():
+        if n % nparts == part:
+            yield line, mn, shape, v
+    for n, line, mn, shape, v in spellgrid():
         if n % nparts == part:
             yield line, mn, shape, v
